@@ -381,7 +381,12 @@ func (v *Verifier) VerifyFunc(c *Contract) (res *FuncResult) {
 			panic(r)
 		}
 	}()
+	idUpper = map[*Term][]idBound{}
+	nextSyms = map[*Term]bool{}
+	nextGE = map[*Term]idBound{}
+	privateArrs = map[*Term]bool{}
 	st := &State{cells: map[*ssa.Alloc]Value{}, heap: map[string]*Term{}, next: Var("next0", BV64)}
+	nextSyms[st.next] = true
 	ex.assume(True, ULt(C64(4096), st.next))
 	ex.assume(True, ULt(st.next, C64(1<<50)))
 	fr := &Frame{fn: fn, vals: map[ssa.Value]Value{}, top: true, contract: c}
@@ -471,7 +476,37 @@ func (ex *Exec) frameObligations(fr *Frame, r retInfo, targets []modTarget, c *C
 		}
 		i := Bound("i", srt.Idx)
 		var goal *Term
-		if strings.HasPrefix(n, "E|") || strings.HasPrefix(n, "M|") {
+		if strings.HasPrefix(n, "E|") {
+			// rows that are not targeted are unchanged as a whole; targeted rows are unchanged
+			// outside every targeted window (stated relative to the slice offset so that the
+			// goal's reads have the same shape as the code's reads)
+			var wins []VSlice
+			for _, t := range targets {
+				if t.kind != "elems" {
+					continue
+				}
+				et := under(t.typ).(*types.Slice).Elem()
+				if strings.HasPrefix(n, "E|"+typeKey(et)+"|") {
+					wins = append(wins, t.val.(VSlice))
+				}
+			}
+			var notT []*Term
+			for _, w := range wins {
+				notT = append(notT, Not(Eq(i, w.Arr)))
+			}
+			goals := []*Term{Forall([]*Term{i}, Implies(And(append([]*Term{ULt(i, next0)}, notT...)...), Eq(Select(now, i), Select(was, i))))}
+			for _, w := range wins {
+				k := Bound("k", BV64)
+				abs := Add(w.Off, k)
+				var inAny []*Term
+				for _, u := range wins {
+					inAny = append(inAny, And(Eq(w.Arr, u.Arr), SLe(u.Off, abs), SLt(abs, Add(u.Off, u.Len))))
+				}
+				goals = append(goals, Forall([]*Term{k}, Implies(Not(Or(inAny...)),
+					Eq(Select(Select(now, w.Arr), abs), Select(Select(was, w.Arr), abs)))))
+			}
+			goal = And(goals...)
+		} else if strings.HasPrefix(n, "M|") {
 			j := Bound("j", srt.Elem.Idx)
 			keep := And(ULt(i, next0), Not(ex.inMod(targets, n, i, j)))
 			goal = Forall([]*Term{i, j}, Implies(keep, Eq(Select(Select(now, i), j), Select(Select(was, i), j))))
